@@ -1,0 +1,81 @@
+//go:build verif
+
+// Machine-checked contracts of package common (comment-only; read by the
+// verifier in /verif, ignored by every compiler because of the build tag).
+
+package common
+
+/*@
+module core
+dialect neovm
+
+// Witness helpers. alphabet() is the 2/3+1 multi-signature account of the chain
+// committee, cmtaddr() the majority one; MS(m, keys) is CreateMultisigAccount.
+
+func Multiaddress(n, committee) (r)
+  pure
+  ensures [C03] !committee ==> r == MS(len(n) * 2 / 3 + 1, n)
+  ensures [C03] committee ==> r == MS(len(n) / 2 + 1, n)
+
+func AlphabetAddress() (r)
+  pure
+  ensures [C03] r == alphabet()
+
+func CommitteeAddress() (r)
+  pure
+  ensures [C03] r == cmtaddr()
+
+func CheckAlphabetWitness()
+  pure
+  ensures [C03] W(alphabet())
+
+func CheckOwnerWitness(caller)
+  pure
+  ensures W(caller)
+
+func CheckWitness(caller)
+  pure
+  ensures W(caller)
+
+func HasUpdateAccess() (r)
+  pure
+  ensures [C03,C16] r == W(cmtaddr())
+
+func ContainsAlphabetWitness() (r)
+  pure
+  ensures [C03] r == (W(alphabet()) || W(cmtaddr()))
+
+func AlphabetNodes() (r)
+  pure
+  ensures r == committee()
+
+// Transfer detail builders: one marker byte followed by the payload.
+
+func MintTransferDetails(txDetails) (r)
+  pure
+  ensures r == "\x01" ++ txDetails && !isnil(r)
+
+func BurnTransferDetails(txDetails) (r)
+  pure
+  ensures r == "\x02" ++ txDetails && !isnil(r)
+
+func LockTransferDetails(txDetails) (r)
+  pure
+  ensures r == "\x03" ++ txDetails && !isnil(r)
+
+func UnlockTransferDetails(epoch) (r)
+  pure
+  ensures r == "\x04" ++ i2b(epoch) && !isnil(r)
+
+func ContainerFeeTransferDetails(cid) (r)
+  pure
+  ensures r == "\x10" ++ cid && !isnil(r)
+
+func WalletToScriptHash(wallet) (r)
+  pure
+  ensures r == wallet[1 : len(wallet) - 4] && !isnil(r)
+
+func CheckVersion(from)
+  pure
+  ensures [C16] PrevVersion <= from && from < Version
+@*/
